@@ -67,6 +67,19 @@ package getsvc
 //@ callrule c23_recovery_resumes_in_the_failed_part in (*Service).copyECObjectRangeByParts
 //@   callee ec.DecodeRange
 //@   requires [recovery_starts_at_the_failed_part_after_what_was_written] a1 == failedIdx() && (wide(origFirstOff()) + wide(failedWritten()) < 18446744073709551616 ==> wide(firstPartOff) == ite(failedIdx() != origFirstIdx(), 0, wide(origFirstOff())) + wide(failedWritten()))
+// A child of a split object is never asked for an empty range: the storage reads the range
+// (0, 0) as "the whole payload" (PayloadRange.Resolve), so asking the last child for nothing -
+// the requested range ends before it - would append all of it.
+//@ ghost pred lastChildRangeLength() uint64
+//@ callrule c23_last_child_range_length in (*execCtx).assemble
+//@   optional
+//@   callee (*object.Range).GetLength, (object.Range).GetLength
+//@   pureeffect
+//@   defines result == lastChildRangeLength()
+//@ callrule c23_no_child_is_asked_for_an_empty_range in (*execCtx).assemble
+//@   callee (*get.execCtx).copyChild
+//@   requires [child_range_is_absent_or_not_empty] a1 == nil || lastChildRangeLength() > 0
+
 // A ranged read of an EC object starts by learning the parent's payload length from the parent
 // header that every part carries. With up to the parity count of parts missing the range must
 // still be served, so the look-up may give up only after every part of the rule was asked -
